@@ -98,6 +98,9 @@ func init() {
 	instanceAxioms["pk.addr"] = func(t *Term) []*Term {
 		return []*Term{Eq(App("pk.addr.inv", pkSort, t), t.Args[0]), Eq(App("b.len", IntSort, t), IntI(20))}
 	}
+	instanceAxioms["pk.bytes"] = func(t *Term) []*Term {
+		return []*Term{Eq(App("pk.bytes.inv", pkSort, t), t.Args[0])}
+	}
 	models["github.com/cosmos/cosmos-sdk/crypto/codec.ToCmtProtoPublicKey"] = func(e *Exec, a []Value) []Value {
 		t := e.W.typeByName("github.com/cometbft/cometbft/proto/tendermint/crypto", "PublicKey")
 		pk := e.zero(t).(*StructV)
